@@ -59,11 +59,8 @@ private theorem leaf_consumes (l : Leaf) (n : Nat) (hf : leafFixed l = some n) (
     | error x => simp [hd] at h
     | ok p =>
       obtain ⟨m, r'⟩ := p
-      simp only [hd] at h
-      have hc := decInt_consumes _ _ bs r' m hd
-      split at h
-      · simp only [Except.ok.injEq, Prod.mk.injEq] at h; rw [← h.2]; exact hc
-      · cases h
+      simp only [hd, Except.ok.injEq, Prod.mk.injEq] at h
+      rw [← h.2]; exact decInt_consumes k .le bs r' m hd
   | enumT k e vals =>
     simp only [leafFixed, Option.some.injEq] at hf; subst hf
     simp only [decLeaf] at h
